@@ -147,4 +147,17 @@ Proof.
   destruct (c <=? 65535)%N; apply Hx; reflexivity.
 Qed.
 
+(* the same for the whole repr: every character of repr(s) occurs in s or is none of < > & *)
+Lemma py_repr_introduces_nothing s x :
+  In x (py_repr s) -> In x s \/ (is_angle x = false /\ N.eqb x 38 = false).
+Proof.
+  unfold py_repr.
+  assert (Hq : is_angle (repr_quote s) = false /\ N.eqb (repr_quote s) 38 = false).
+  { unfold repr_quote. destruct (_ && _); split; reflexivity. }
+  intros [<-|H]; [now right|].
+  apply in_app_or in H. destruct H as [H|[<-|[]]]; [|now right].
+  apply in_flat_map in H. destruct H as (c & Hc & Hx).
+  destruct (repr_char_introduces_nothing _ _ _ Hx) as [->|R]; [now left | now right].
+Qed.
+
 End Repr.
